@@ -22,6 +22,7 @@ import random
 import shutil
 import sys
 import threading
+import time
 
 from . import astlib
 from .astlib import ShapeError
@@ -617,7 +618,7 @@ class Runner:
         return out
 
 
-def enumerate_schedules(runner, cfg, bound=None, limit=None, rng=None):
+def enumerate_schedules(runner, cfg, bound=None, limit=None, rng=None, deadline=None):
     """stateless DFS over the REAL system: every maximal schedule (with at most `bound` preemptions) exactly once.
     With a limit the next prefix is drawn at random (seeded), so a truncated enumeration is spread over the tree."""
     todo = [[]]
@@ -648,6 +649,8 @@ def enumerate_schedules(runner, cfg, bound=None, limit=None, rng=None):
                     continue
                 todo.append([x[1] for x in tr[:i]] + [a])
         if limit is not None and len(out) >= limit:
+            break
+        if deadline is not None and time.time() > deadline:
             break
     return out, (len(todo) == 0)
 
@@ -926,8 +929,14 @@ def _run(chk, rng, proof, work):
         judge("witness-" + wname, cfg, [r], "witness")
 
     # step 3: every schedule of the configurations, enumerated on the real cache
+    # time budget of the enumeration (coverage only, never the verdict): when it is used up the remaining
+    # configurations (the sampled universes come last) get one schedule each and are listed in the evidence
+    deadline = chk.t0 + (210 if tier == "quick" else 450)
     for name, cfg, bound, limit in plan(chk, rng):
-        runs, complete = enumerate_schedules(runner, cfg, bound=bound, limit=limit, rng=rng)
+        if time.time() > deadline:
+            limit = 1
+            chk.counters.setdefault("cut_by_time_budget", []).append(name)
+        runs, complete = enumerate_schedules(runner, cfg, bound=bound, limit=limit, rng=rng, deadline=deadline if limit != 1 else None)
         chk.count("configurations")
         if complete and bound is None:
             chk.count("configurations_all_schedules")
